@@ -304,6 +304,13 @@ where
         }
         Some(node_) => node = node_,
     }
+    #[cfg(feature = "verif")]
+    VERIF_TRACE.with(|t| {
+        let mut t = t.borrow_mut();
+        if t.len() < 65536 {
+            t.push((node, edges.sum()))
+        }
+    });
 
     // `combinations` is a list of pairs that can be formed from the edges associated
     // with `node`, but which have not yet been populated. These will be populated
@@ -398,6 +405,17 @@ fn create_fx_array(
 }
 
 impl JSON for FXRates {}
+
+#[cfg(feature = "verif")]
+thread_local! {
+    static VERIF_TRACE: std::cell::RefCell<Vec<(usize, i16)>> = const { std::cell::RefCell::new(Vec::new()) };
+}
+
+/// Take (and clear) the nodes sampled, with the edge count at that time, by the triangulation.
+#[cfg(feature = "verif")]
+pub(crate) fn verif_take_trace() -> Vec<(usize, i16)> {
+    VERIF_TRACE.with(|t| std::mem::take(&mut *t.borrow_mut()))
+}
 
 #[cfg(test)]
 mod tests {
